@@ -1012,6 +1012,19 @@ fn emit_target(ctx: &mut Ctx, unit: &Unit, t: &Target) -> Emitted {
                     block.stmts.push(marker)
                 }
             }
+            "lowered-before" | "lowered-after" => {}
+            "ret" => {
+                // the function's tail expression is bound to `__ret` so that a proof can talk about
+                // the value being returned: `E` -> `let __ret = E; <proof> __ret`
+                match block.stmts.pop() {
+                    Some(Stmt::Expr(e, None)) => {
+                        block.stmts.push(syn::parse_quote!(let __ret = #e;));
+                        block.stmts.push(marker);
+                        block.stmts.push(Stmt::Expr(syn::parse_quote!(__ret), None));
+                    }
+                    _ => die(&format!("lost anchor: target {} — `@proof ret` needs a tail expression", t.name)),
+                }
+            }
             _ => {
                 let mut ins = SpliceInserter {
                     anchor: &sp.anchor,
@@ -1077,6 +1090,18 @@ fn emit_target(ctx: &mut Ctx, unit: &Unit, t: &Target) -> Emitted {
     drop_g.extend(t.drop_generics.iter().cloned());
     let mut lw = Lower { forloops: 0, drop_generics: drop_g.clone(), rules, counts: vec![0; n_rules], notes: BTreeMap::new() };
     lw.visit_block_mut(&mut block);
+    // splices anchored on the LOWERED body (statements produced by @stmt/@forloop templates)
+    for (k, sp) in t.splices.iter().enumerate() {
+        let place = match sp.place.as_str() { "lowered-before" => "before", "lowered-after" => "after", _ => continue };
+        let mut ins = SpliceInserter { anchor: &sp.anchor, place, nth: sp.nth, seen: 0, id: k, done: false };
+        ins.visit_block_mut(&mut block);
+        if !ins.done {
+            die(&format!(
+                "lost anchor: target {} — splice anchor `{}` (#{}) not found in the lowered body",
+                t.name, sp.anchor_src, sp.nth
+            ));
+        }
+    }
     if sig.asyncness.is_some() {
         lw.note("R1 async fn -> fn");
     }
